@@ -217,6 +217,23 @@ def layout(t):
     return r
 
 
+def _is_byte_array(t):
+    return t.k == 'arr' and t.elem.k == 'int' and t.elem.w == 8
+
+
+def is_storage_struct(t):
+    """__gnu_cxx::__aligned_buffer<T> (wrapping a std::aligned_storage union) / __aligned_membuf<T>: a raw byte buffer
+    that holds exactly one object of some type T.  The wrapper type is distinct per T (the inner union is shared)."""
+    if not (t.k == 'struct' and bool(t.name) and not t.opaque and len(t.fields) == 1):
+        return False
+    f = t.fields[0]
+    if t.name.startswith('struct.__gnu_cxx::__aligned_membuf'):
+        return _is_byte_array(f)
+    if t.name.startswith('struct.__gnu_cxx::__aligned_buffer'):
+        return f.k == 'struct' and not f.opaque and len(f.fields) == 1 and _is_byte_array(f.fields[0])
+    return False
+
+
 def is_bytes_struct(t):
     return t.k == 'struct' and bool(t.name) and t.name.startswith('union.') and not t.opaque and len(t.fields) > 0
 
@@ -728,6 +745,8 @@ class Emitter:
         self.fnty_names = {}
         self.out_funcs = []
         self.typeinfos = {}  # name -> id
+        self.storage_votes = {}
+        self._payload_cache = {}
         self.warnings = []
         self.info = {'functions': [], 'externals': [], 'stubs': [], 'overridden': []}
 
@@ -867,7 +886,22 @@ class Emitter:
                 body = ' '.join('%s f%d;' % (self.ct(f), i) for i, f in enumerate(t.fields))
                 if not t.fields:
                     body = ''
-                if is_bytes_struct(t):
+                if is_storage_struct(t) and self.storage_payload(t):
+                    # the buffer is declared with the members observed through the casts applied to it (offset -> type):
+                    # pointer-valued fields of the stored object then stay propagatable constants for CBMC
+                    parts = []
+                    pos = 0
+                    size = layout(t)[0]
+                    for off, pt in self.storage_payload(t):
+                        if off > pos:
+                            parts.append('uint8_t p%d[%d];' % (pos, off - pos))
+                        dep(pt)
+                        parts.append('%s m%d;' % (self.ct(pt), off))
+                        pos = off + layout(pt)[0]
+                    if pos < size:
+                        parts.append('uint8_t p%d[%d];' % (pos, size - pos))
+                    out.append('struct __attribute__((packed, aligned(%d))) %s { %s };' % (8 if size % 8 == 0 else 1, self.sname(t), ' '.join(parts)))
+                elif is_bytes_struct(t):
                     # unions (LLVM keeps only the largest member): a byte array, so that partial writes (std::string's
                     # SSO buffer is `union { i64; [8 x i8] }`) stay element-wise constants during symbolic execution
                     sz, al = layout(t)
@@ -900,6 +934,40 @@ class Emitter:
             if t.k in ('struct', 'arr'):
                 pre.append('struct %s;' % self.sname(t))
         return pre + out
+
+    def storage_vote(self, st, off, target):
+        self.storage_votes.setdefault(st.id, {}).setdefault(off, {})
+        d = self.storage_votes[st.id][off]
+        d[target.id] = d.get(target.id, 0) + 1
+
+    def storage_payload(self, st):
+        """[(offset, Ty)] non-overlapping members inferred for a storage wrapper, or [] when nothing usable was seen"""
+        if st.id in self._payload_cache:
+            return self._payload_cache[st.id]
+        votes = self.storage_votes.get(st.id) or {}
+        size = layout(st)[0]
+        out = []
+        pos = 0
+        for off in sorted(votes):
+            if off < pos:
+                continue
+            best = None
+            for tid in votes[off]:
+                t = self.T.all[tid]
+                if t.k in ('void', 'fn') or (t.k == 'struct' and (t.opaque or is_storage_struct(t))):
+                    continue
+                sz, al = layout(t)
+                if sz == 0 or off % al != 0 or off + sz > size:
+                    continue
+                if best is None or sz > layout(best)[0]:
+                    best = t
+            if best is not None:
+                out.append((off, best))
+                pos = off + layout(best)[0]
+        for off, t in out:
+            self.ct(t)
+        self._payload_cache[st.id] = out
+        return out
 
     # ---- globals / functions usage
     def use_global(self, name):
@@ -1048,9 +1116,21 @@ class Emitter:
             lv = '(*%s)' % b
         else:
             lv = '%s[%s]' % (b, self.sidx(idx0, static))
+        raw = None
         for ix in ops[2:]:
             if cur.k == 'struct':
                 assert ix.k == 'int'
+                if raw is not None and lv is raw:
+                    # still inside a raw storage buffer (the aligned_storage union / its byte array): offset 0 members only
+                    if ix.a != 0:
+                        raise ValueError('non-zero member inside a storage buffer')
+                    cur = cur.fields[0]
+                    continue
+                if is_storage_struct(cur):
+                    # raw buffer: address bytes relative to the wrapper itself (valid whatever payload type is chosen later)
+                    raw = lv
+                    cur = cur.fields[0]
+                    continue
                 if is_bytes_struct(cur):
                     ft = cur.fields[ix.a]
                     lv = '(*(%s*)&%s.b[%d])' % (self.ct(ft), lv, field_offset(cur, ix.a))
@@ -1059,11 +1139,16 @@ class Emitter:
                 lv = '%s.f%d' % (lv, ix.a)
                 cur = cur.fields[ix.a]
             elif cur.k == 'arr':
-                lv = '%s.a[%s]' % (lv, self.sidx(ix, static))
+                if raw is not None and lv is raw:
+                    lv = '((uint8_t*)&%s)[%s]' % (lv, self.sidx(ix, static))
+                else:
+                    lv = '%s.a[%s]' % (lv, self.sidx(ix, static))
                 cur = cur.elem
             else:
                 raise ValueError('gep through ' + cur.k)
         self.ct(cur)
+        if raw is not None and lv is raw:
+            return '((%s*)&%s)' % (self.ct(cur), lv)
         return '(&%s)' % lv
 
     def sidx(self, ix, static=False):
@@ -1309,6 +1394,7 @@ class FnTranslator:
         self.blocks = []   # [(label, [inst tokens...])]
         self.phis = {}     # block -> [(dest, ty, [(val, pred)])]
         self.lin = {}
+        self.abuf = {}
         self.tmpn = 0
 
     def ret_default(self):
@@ -1736,6 +1822,78 @@ class FnTranslator:
             terms.append('(int64_t)%dLL' % c)
         return '((uint64_t)(%s))' % ' + '.join(terms)
 
+    def storage_at_zero(self, t):
+        """the storage struct found at offset 0 of type t (t itself, or nested first members), else None"""
+        for _ in range(8):
+            if t.k != 'struct' or t.opaque or not t.fields:
+                return None
+            if is_storage_struct(t):
+                return t
+            t = t.fields[0]
+        return None
+
+    def contains_storage(self, t, st):
+        return self.storage_at_zero(t) is st
+
+    def storage_of(self, v):
+        """(storage wrapper Ty, byte offset) addressed by pointer value v, or None"""
+        if v.k == 'local' and v.a in self.abuf:
+            return self.abuf[v.a]
+        if v.ty.k == 'ptr':
+            st = self.storage_at_zero(v.ty.elem)
+            if st is not None:
+                return (st, 0)
+        return None
+
+    def gep_storage(self, ins):
+        ops = ins['ops']
+        base = self.storage_of(ops[0]) if ops[0].k == 'local' and ops[0].a in self.abuf else None
+        cur = ins['sty']
+        if base is not None:
+            # gep on an already tracked pointer: only plain byte/element offsets with constant indices
+            if not all(ix.k == 'int' for ix in ops[1:]):
+                return None
+            st, off = base
+            esz = layout(cur)[0]
+            off += self._sint(ops[1]) * esz
+            for ix in ops[2:]:
+                if cur.k == 'struct':
+                    off += field_offset(cur, ix.a)
+                    cur = cur.fields[ix.a]
+                else:
+                    off += self._sint(ix) * layout(cur.elem)[0]
+                    cur = cur.elem
+            return (st, off)
+        if len(ops) < 2 or not (ops[1].k == 'int' and ops[1].a == 0):
+            return None
+        st = None
+        off = 0
+        for ix in ops[2:]:
+            if st is None and cur.k == 'struct' and is_storage_struct(cur):
+                st = cur
+            if cur.k == 'struct':
+                if ix.k != 'int':
+                    return None
+                if st is not None:
+                    off += field_offset(cur, ix.a)
+                cur = cur.fields[ix.a]
+            else:
+                if ix.k != 'int':
+                    return None
+                if st is not None:
+                    off += self._sint(ix) * layout(cur.elem)[0]
+                cur = cur.elem
+        if st is None:
+            st = self.storage_at_zero(cur)
+            if st is None:
+                return None
+        return (st, off)
+
+    def _sint(self, ix):
+        w = ix.ty.w
+        x = ix.a & ((1 << w) - 1)
+        return x - (1 << w) if x >= 1 << (w - 1) else x
+
     def fp_lit(self, v):
         if v.k == 'fp':
             return float(v.a)
@@ -1840,6 +1998,14 @@ class FnTranslator:
             self.setl(d, self.T.int(1), em.fcmp_expr(ins['pred'], ins['ty'], em.cexpr(ins['a']), em.cexpr(ins['b'])))
         elif op in CAST_OPS:
             v = ins['v']
+            if op == 'bitcast' and v.ty.k == 'ptr' and ins['ty'].k == 'ptr':
+                so = self.storage_of(v)
+                if so is not None:
+                    st, off = so
+                    tgt = ins['ty'].elem
+                    if not (tgt.k == 'int' and tgt.w == 8) and self.storage_at_zero(tgt) is not st:
+                        em.storage_vote(st, off, tgt)
+                    self.abuf[d] = so
             if op == 'ptrtoint' and ins['ty'].w == 64:
                 self.lin[d] = (0, {em.cexpr(v): 1}, {})
             self.setl(d, ins['ty'], em.cast_expr(op, v.ty, ins['ty'], em.cexpr(v)))
@@ -1860,8 +2026,13 @@ class FnTranslator:
         elif op == 'getelementptr':
             # result type
             cur = ins['sty']
+            zero_tail = True
             for ix in ins['ops'][2:]:
                 cur = cur.fields[ix.a] if cur.k == 'struct' else cur.elem
+            # storage-buffer tracking: a pointer to a constant byte offset inside a __aligned_buffer / __aligned_membuf
+            so = self.gep_storage(ins)
+            if so is not None:
+                self.abuf[d] = so
             self.setl(d, self.T.ptr(cur), em.gep_expr(ins['sty'], ins['ops']))
         elif op == 'select':
             a = ins['a']
@@ -2053,6 +2224,137 @@ class FnTranslator:
         elif throws:
             B.append('if (__ir2c_exc_pending) { %s }' % self.ret_default())
 
+    # ---- typed expansion of constant-size memset/memcpy: byte-wise (or CBMC-builtin) writes over pointer-valued struct
+    # fields destroy constant propagation of those pointers; per-field typed assignments keep it.
+    def typed_region(self, pv, nbytes):
+        """resolve pointer value pv (i8* or typed) to (lvalue_expr_of_T, T, byte_offset) covering nbytes, or None"""
+        em = self.em
+        v = pv
+        for _ in range(4):
+            if v.k != 'local':
+                break
+            d = self.defs.get(v.a)
+            if d is None or d['op'] != 'bitcast' or d['v'].ty.k != 'ptr':
+                break
+            v = d['v']
+        if v.ty.k != 'ptr':
+            return None
+        t = v.ty.elem
+        if t.k in ('void', 'fn') or (t.k == 'struct' and t.opaque) or (t.k == 'int' and t.w == 8):
+            return None
+        if layout(t)[0] >= nbytes:
+            return ('(*%s)' % em.cexpr(v), t, 0)
+        # the region extends past *v: look for the enclosing aggregate through the GEP that produced v
+        if v.k == 'local':
+            d = self.defs.get(v.a)
+            if d is not None and d['op'] == 'getelementptr' and len(d['ops']) >= 3 and d['ops'][1].k == 'int' and d['ops'][1].a == 0 \
+                    and all(ix.k == 'int' for ix in d['ops'][2:]):
+                # try enclosing levels from innermost to outermost
+                path = d['ops'][2:]
+                for depth in range(len(path) - 1, -1, -1):
+                    cur = d['sty']
+                    lv = '(*%s)' % em.cexpr(d['ops'][0])
+                    ok = True
+                    for ix in path[:depth]:
+                        if cur.k == 'struct' and not is_bytes_struct(cur) and not is_storage_struct(cur):
+                            lv = '%s.f%d' % (lv, ix.a)
+                            cur = cur.fields[ix.a]
+                        elif cur.k == 'arr':
+                            lv = '%s.a[%d]' % (lv, ix.a)
+                            cur = cur.elem
+                        else:
+                            ok = False
+                            break
+                    if not ok:
+                        continue
+                    off = 0
+                    c2 = cur
+                    for ix in path[depth:]:
+                        if c2.k == 'struct':
+                            off += field_offset(c2, ix.a)
+                            c2 = c2.fields[ix.a]
+                        elif c2.k == 'arr':
+                            off += ix.a * layout(c2.elem)[0]
+                            c2 = c2.elem
+                        else:
+                            ok = False
+                            break
+                    if ok and off + nbytes <= layout(cur)[0]:
+                        return (lv, cur, off)
+        return None
+
+    def leaves(self, t, lv, base, lo, hi, out):
+        """scalar leaves of t (lvalue lv at byte offset base) fully inside [lo, hi); returns False if a leaf straddles the range"""
+        sz = layout(t)[0]
+        if base >= hi or base + sz <= lo:
+            return True
+        if len(out) > 160:
+            return False
+        if t.k == 'struct':
+            if t.opaque or is_storage_struct(t):
+                return False
+            if is_bytes_struct(t):
+                for i in range(sz):
+                    if lo <= base + i < hi:
+                        out.append((base + i, self.T.int(8), '%s.b[%d]' % (lv, i)))
+                return True
+            for i, f in enumerate(t.fields):
+                if not self.leaves(f, '%s.f%d' % (lv, i), base + field_offset(t, i), lo, hi, out):
+                    return False
+            return True
+        if t.k == 'arr':
+            es = layout(t.elem)[0]
+            for i in range(t.n):
+                if not self.leaves(t.elem, '%s.a[%d]' % (lv, i), base + i * es, lo, hi, out):
+                    return False
+            return True
+        if base < lo or base + sz > hi:
+            return False
+        out.append((base, t, lv))
+        return True
+
+    def typed_memset(self, args):
+        n = args[2]
+        if n.k != 'int' or not (0 < n.a <= 1024) or not (args[1].k == 'int' and args[1].a == 0):
+            return False
+        r = self.typed_region(args[0], n.a)
+        if r is None:
+            return False
+        lv, t, off = r
+        out = []
+        if not self.leaves(t, lv, 0, off, off + n.a, out) or not out:
+            return False
+        for o, lt, path in out:
+            self.body.append('%s = %s;' % (path, self.em.zero(lt)))
+        return True
+
+    def typed_memcpy(self, args):
+        n = args[2]
+        if n.k != 'int' or not (0 < n.a <= 1024):
+            return False
+        rd = self.typed_region(args[0], n.a)
+        rs = self.typed_region(args[1], n.a)
+        if rd is None or rs is None:
+            return False
+        od, os_ = [], []
+        if not self.leaves(rd[1], rd[0], 0, rd[2], rd[2] + n.a, od) or not self.leaves(rs[1], rs[0], 0, rs[2], rs[2] + n.a, os_):
+            return False
+        if len(od) != len(os_) or not od:
+            return False
+        for (o1, t1, p1), (o2, t2, p2) in zip(od, os_):
+            if o1 - rd[2] != o2 - rs[2] or layout(t1)[0] != layout(t2)[0] or (t1.k == 'ptr') != (t2.k == 'ptr') or \
+                    (t1.k in ('float', 'double')) != (t2.k in ('float', 'double')):
+                return False
+        self.tmpn += 1
+        tmps = []
+        for i, ((o1, t1, p1), (o2, t2, p2)) in enumerate(zip(od, os_)):
+            src = p2 if t1 is t2 else '(%s)%s' % (self.em.ct(t1), p2)
+            tmps.append((p1, src))
+        # memcpy regions do not overlap, so direct assignment order is irrelevant
+        for p1, src in tmps:
+            self.body.append('%s = %s;' % (p1, src))
+        return True
+
     def intrinsic(self, name, ins):
         em = self.em
         args = [v for v, at in ins['args']]
@@ -2065,8 +2367,12 @@ class FnTranslator:
         if n1 == 'var':
             return None
         if n1 == 'memcpy' or n1 == 'memmove':
+            if n1 == 'memcpy' and self.typed_memcpy(args):
+                return None
             return '__ir2c_%s((void*)%s, (const void*)%s, %s)' % (n1, a[0], a[1], a[2])
         if n1 == 'memset':
+            if self.typed_memset(args):
+                return None
             return '__ir2c_memset((void*)%s, %s, %s)' % (a[0], a[1], a[2])
         ty = ins['rty']
         if n1 in ('umax', 'umin'):
